@@ -111,6 +111,21 @@ func runC14(args []string) {
 	write("sep/d.bop", c14Leaf("example.com/gen/pd", "TypeD", nil, nil))
 	trees = append(trees, tree{"imports-separate", write("sep/root.bop", c14BigSchema("example.com/gen/root", []string{"./a.bop", "./b.bop", "./d.bop"}, []string{"TypeA", "TypeB", "TypeD", "TypeAMsg", "TypeDKind"})), false})
 
+	// further single-file trees: the extremes family (wide/deep records, inline union members used
+	// as field types) and seeded random schemas; these get fewer repetitions
+	smallFrom := len(trees)
+	for _, nm := range schema.ExtremesFamily() {
+		trees = append(trees, tree{nm.Name, write("x/"+strings.ReplaceAll(nm.Name, "/", "_")+".bop", schema.Print(nm.S, schema.Layouts[0])), true})
+	}
+	nrnd := 6
+	if r.Thorough() {
+		nrnd = 30
+	}
+	rng := newRand(r.Seed)
+	for i := 0; i < nrnd; i++ {
+		g := &schema.Gen{R: rng, Cfg: schema.GenCfg{Comments: true, Attrs: true, Consts: true, MaxDefs: 8, MaxDepth: 3}}
+		trees = append(trees, tree{fmt.Sprintf("random-%d", i), write(fmt.Sprintf("x/random%d.bop", i), schema.Print(g.Random(), schema.Layouts[0])), true})
+	}
 	procs := 3
 	G, R := 8, 20
 	if r.Thorough() {
@@ -120,7 +135,11 @@ func runC14(args []string) {
 	os.MkdirAll(logDir, 0o755)
 	totalOverlap := 0
 	overlapByPair := map[string]int{}
-	for _, tr := range trees {
+	for ti, tr := range trees {
+		procs, G, R := procs, G, R
+		if ti >= smallFrom {
+			procs, G, R = 2, 4, 4
+		}
 		var settings []map[string]any
 		for _, o := range []Opts{{}, {Tags: true}, {Private: true, Pointers: true}, {Unsafe: true, Shared: true}, {Tags: true, Unsafe: true, Pointers: true}, {Private: true, Tags: true}} {
 			st := o.settings("pkg")
